@@ -150,7 +150,7 @@ func c16RunDevmodDirect(dm serviceinfo.Devmod, mods map[string]serviceinfo.Devic
 	}()
 	select {
 	case <-done:
-	case <-time.After(20 * time.Second):
+	case <-time.After(90 * time.Second):
 		res.err = "hang"
 		_ = reader.Close()
 	}
